@@ -22,8 +22,10 @@ COMPONENTS = {
         "accessors": {"internal/actor/xv_ask_verif.go": "acc/actor/xv_ask_verif.go",
                       "internal/future/xv_fut_verif.go": "acc/future/xv_fut_verif.go"},
         "what": ("a real started ActorSystem through the public API, real goroutines and real time: many concurrent Asks (replies, tiny and large "
-                 "timeouts, askers killed before the reply, PipeTo) - monitors only: each future completes with the right kind of result, a reply "
-                 "reaches its own future, afterwards actorContexts / futureAgents hold no future entry"),
+                 "timeouts, askers killed before the reply, PipeTo; name reuse: generations of same-named short-lived askers whose Asks end by timeout / "
+                 "death, late replies to the earlier generations released while the next generation's Asks are pending) - monitors only: every "
+                 "request and reply carries a unique id; each future completes with the reply produced for ITS request or its own timeout / dead "
+                 "error, afterwards actorContexts / futureAgents hold no future entry"),
     },
 }
 
@@ -41,7 +43,7 @@ PROPERTIES = {
             "appendFuture / removeFuture / removeFuturesByAgentPath / findMailbox are each ONE step (system.go is not instrumented: its sync.Map operation and its futureLock section are not interleaved with other threads)",
             "the reads of f.message / f.err are not scheduling points of their own: they happen in the step of the preceding <-done / closed.Load (coarser than the code, same outcomes: only one of the two fields is ever written, once)",
             "M6: time.AfterFunc fires no earlier than its duration (virtual clock: the timer's fire step is enabled only at now >= armed_at + timeout; the controlled scheduler decides when it fires)",
-            "M7: the uuid in the agent path is fresh: nobody else registers under the future's path and a reply can be addressed to it only by someone who received the request (side condition prog_ok / Await)",
+            "M7 (explicit hypothesis M7_agent_path_fresh of the C04_reply_routing_* theorems; C04_reply_routing_needs_M7 shows it is needed): the agent path of a request is unique among all requests of all incarnations of all actors (uuid): nobody else registers under the future's path, the future is registered under no other path, and a reply can be addressed to it only by someone who received THIS request. On the implementation the class 'paths unique only per incarnation' is searched by the name-reuse scenarios of component ask (monitor reply-misrouted)",
             "one focus future per model instance; every other Ask / actor of the system is environment traffic on other registry paths",
             "forwarders named by the PipeTo calls of one future are pairwise distinct in C04_forwarders_once (ActorRefs.Unique is modelled; a forwarder named twice may legitimately receive one or two results)",
             "fair scheduling by the Go runtime (an enabled goroutine eventually runs) for 'eventually completes'",
